@@ -210,11 +210,10 @@ impl Story {
         if missing_externals.is_empty() {
             self.has_validated_externals = true;
         } else {
-            let join: String = missing_externals
-                .iter()
-                .cloned()
-                .collect::<Vec<String>>()
-                .join(", ");
+            // sorted: the set's iteration order changes from run to run
+            let mut names: Vec<String> = missing_externals.iter().cloned().collect();
+            names.sort();
+            let join: String = names.join(", ");
             let message = format!(
                 "ERROR: Missing function binding for external{}: '{}' {}",
                 if missing_externals.len() > 1 { "s" } else { "" },
